@@ -484,9 +484,6 @@ class WsgiApplication(HttpBase):
             first_obj = next(g)
             p_ctx.out_object = ( chain((first_obj,), g), )
 
-        if p_ctx.transport.resp_code is None:
-            p_ctx.transport.resp_code = HTTP_200
-
         try:
             self.get_out_string(p_ctx)
 
@@ -495,6 +492,9 @@ class WsgiApplication(HttpBase):
             p_ctx.out_error = Fault('Server', get_fault_string_from_exception(e))
             return self.handle_error(p_ctx, others, p_ctx.out_error,
                                                                  start_response)
+
+        if p_ctx.transport.resp_code is None:
+            p_ctx.transport.resp_code = HTTP_200
 
 
         if isinstance(p_ctx.out_protocol, HttpRpc) and \
